@@ -71,6 +71,22 @@ func (p *Prog) PathExists(fn *ssa.Function, from ssa.Instruction, to, avoid Pred
 		sort.Strings(out)
 		return strings.Join(out, ";") + ";"
 	}
+	dropEnv := func(env, key string) string {
+		if env == "" {
+			return env
+		}
+		var out []string
+		for _, pt := range strings.Split(env, ";") {
+			if pt == "" || strings.HasPrefix(pt, key+"=") {
+				continue
+			}
+			out = append(out, pt)
+		}
+		if len(out) == 0 {
+			return ""
+		}
+		return strings.Join(out, ";") + ";"
+	}
 	known := func(env string, cond ssa.Value) (bool, bool) {
 		neg := false
 		for {
@@ -82,6 +98,8 @@ func (p *Prog) PathExists(fn *ssa.Function, from ssa.Instruction, to, avoid Pred
 		}
 		key := ""
 		switch x := cond.(type) {
+		case *ssa.Phi:
+			key = "φ" + x.Name() + "@" + uniqFuncName(x.Parent())
 		case *ssa.Extract:
 			if call, ok := x.Tuple.(*ssa.Call); ok && TransparentCallee(call) != nil {
 				key = call.Name() + "#" + itoa(x.Index)
@@ -153,6 +171,28 @@ func (p *Prog) PathExists(fn *ssa.Function, from ssa.Instruction, to, avoid Pred
 			}
 			if only >= 0 && i != only {
 				continue
+			}
+			// entering a block with boolean phis (short-circuit || and &&): remember the constant this edge contributes
+			env := env
+			for _, in := range s.Instrs {
+				ph, isPh := in.(*ssa.Phi)
+				if !isPh {
+					break
+				}
+				if !isBool(ph.Type()) {
+					continue
+				}
+				for k, pb := range s.Preds {
+					if pb != b {
+						continue
+					}
+					key := "φ" + ph.Name() + "@" + uniqFuncName(ph.Parent())
+					if c, isC := ph.Edges[k].(*ssa.Const); isC && c.Value != nil && c.Value.Kind() == constant.Bool {
+						env = setEnv(env, key, constant.BoolVal(c.Value))
+					} else {
+						env = dropEnv(env, key)
+					}
+				}
 			}
 			nx := pos{s, 0, env}
 			if seen[nx] {
